@@ -111,6 +111,7 @@ pub const PAYLOADS: &[&str] = &[
     "pv := [1]\npw := pv\npv += [2]\nprint(pw)\nprint(pv === pw)\n",
     "pv := 1\npw := 2\n[pv, pw] = [pw, pv]\nprint([pv, pw])\n[pv, pw] = [pw, pv + pw]\nprint([pv, pw])\n",
     "pv := [1, 2, 3]\n[pv[0], pv[2]] = [pv[2], pv[0]]\nprint(pv)\n",
+    "pv := 1\nif true {\nprint({pv})\nfor pe in [0] {\nprint({pv, pe})\n}\n}\n",
     "pv := [0]\nprint([pv, pv])\nprint({\"a\": pv, \"b\": [pv]})\n",
     "pv := {\"k\": 1}\npw := {\"x\": pv, \"y\": pv}\nprint(pw)\nprint(pw.x === pw.y)\n",
     "pv := \"s\"\npw := pv\npv += \"t\"\nprint(pw)\nprint(pv)\n",
